@@ -113,7 +113,12 @@ Value& OpEXPExpression::value(Context& ctx) const
           Value val((Integer)r);
           return LVAL2(val, a1, a2);
         }
-        Value val(Integer(std::pow(*a1.integer(), *a2.integer())));
+        /* negative exponent: the integer part of 1 / (b ** -e); zero has no
+         * inverse, and converting the infinity pow() returns is undefined */
+        Integer b = *a1.integer();
+        if (b == 0)
+          throw RuntimeError(EXC_RT_DIVIDE_BY_ZERO);
+        Value val(Integer(b == 1 ? 1 : b == -1 ? ((e & 1) ? -1 : 1) : 0));
         return LVAL2(val, a1, a2);
       }
       case Type::IMAGINARY:
